@@ -31,13 +31,18 @@ def load_known() -> Dict[str, Any]:
 
 
 def match_known(v: Dict[str, Any], known: List[Dict[str, Any]]):
-    for k in known:
-        if k.get("property") != v["property"]:
-            continue
-        if k.get("rule") != v["rule"] or k.get("qualname") != v["qualname"]:
-            continue
-        if " ".join(k.get("construct", "").split()) == v["construct"]:
-            return k
+    keys = [(v["property"], v["rule"])]
+    if v.get("origin"):
+        # a premise checked under another property: the finding is listed once, under the property that owns the rule
+        keys.append((v["origin"][0], v["origin"][1]))
+    for prop, rule in keys:
+        for k in known:
+            if k.get("property") != prop:
+                continue
+            if k.get("rule") != rule or k.get("qualname") != v["qualname"]:
+                continue
+            if " ".join(k.get("construct", "").split()) == v["construct"]:
+                return k
     return None
 
 
@@ -74,7 +79,8 @@ def run_property(pid: str, tier: str, root: str, out_dir: str, evidence_dir: str
         if key in seen_kf:
             continue
         seen_kf.add(key)
-        print(f"KNOWN-FINDING: property={pid} rule={k['rule']} construct={k['qualname']}: {k['construct']} -- {k.get('what', '')} input={k.get('input', '')}")
+        via = "" if k["property"] == pid else f" (premise: listed under {k['property']})"
+        print(f"KNOWN-FINDING: property={pid}{via} rule={k['rule']} construct={k['qualname']}: {k['construct']} -- {k.get('what', '')} input={k.get('input', '')}")
     os.makedirs(out_dir, exist_ok=True)
     for i, v in enumerate(new):
         path = os.path.join(out_dir, f"{pid}-{i}.json")
